@@ -58,3 +58,17 @@ def _v6(repo, mod):
 def _v7(repo, mod):
     fn = repo.func(B, "MutationOperator._generic_visit_list")
     return replace_node(mod, fn, mod.segment(fn).replace("value", "orig_child").replace("old_orig_child", "old_value"))
+
+
+@variant("C28", "first-order-count-bypasses-own-enumeration", M, "C28.count", "a subclass with its own mutate() inherits a count that does not enumerate it")
+def _v30(repo, mod):
+    return mod.source + '''
+
+class SampledMutator(FirstOrderMutator):
+    """Keeps every second mutant."""
+
+    def mutate(self, target_ast, module):  # noqa: D102
+        for index, item in enumerate(super().mutate(target_ast, module)):
+            if index % 2 == 0:
+                yield item
+'''
